@@ -76,6 +76,7 @@ func checkRLE(info *imagetypes.FrameInfo, src []byte) {
 	vrt.Assert(len(enc) >= 64, "C01 header present")
 	vrt.Assert(le32(enc[0:4]) == planes, "C01 segment count == byte planes")
 	prev := 0
+	unused := 0
 	for s := 0; s < 15; s++ {
 		off := le32(enc[4+4*s:])
 		if s < planes {
@@ -87,9 +88,10 @@ func checkRLE(info *imagetypes.FrameInfo, src []byte) {
 			vrt.Assert(off <= len(enc), "C01 offset in range")
 			prev = off
 		} else {
-			vrt.Assert(off == 0, "C01 unused offsets zero")
+			unused |= off
 		}
 	}
+	vrt.Assert(unused == 0, "C01 unused offsets zero")
 	// independent reader
 	for s := 0; s < planes; s++ {
 		off := le32(enc[4+4*s:])
@@ -111,9 +113,11 @@ func checkRLE(info *imagetypes.FrameInfo, src []byte) {
 			pos, step = sample*bpa*npix, bpa
 		}
 		pos += bpa - sabyte - 1
+		d := 0
 		for p := 0; p < npix; p++ {
-			vrt.Assert(plane[p] == src[pos+p*step], "C01 reference reader recovers plane bytes (MSB plane first)")
+			d |= int(plane[p] ^ src[pos+p*step])
 		}
+		vrt.Assert(d == 0, "C01 reference reader recovers plane bytes (MSB plane first)")
 	}
 	// real decoder
 	decPD := &vPD{info: info}
@@ -126,8 +130,12 @@ func checkRLE(info *imagetypes.FrameInfo, src []byte) {
 		want++
 	}
 	vrt.Assert(len(dec) == want, "C01 decoded length (padded to even)")
+	d := 0
 	for i := range src {
-		vrt.Assert(dec[i] == src[i], "C01 decoded bytes equal source")
+		d |= int(dec[i] ^ src[i])
+	}
+	vrt.Assert(d == 0, "C01 decoded bytes equal source")
+	for i := 0; i < len(src) && i < 16; i++ {
 		vrt.Out("dec", int(dec[i]))
 	}
 	if len(src)%2 == 1 {
